@@ -522,6 +522,9 @@ def run(pid, tier, seed):
             hookstats = hook_validation(pid, tier, seed, wd, rep)
             exstats = exchange_binding(pid, tier, seed, wd, rep) if pid in ("C05", "C07", "C15") else None
             pairstats = pair_binding(pid, tier, seed, wd, rep) if pid in ("C05", "C07", "C15", "C18") else None
+            if pid == "C06":
+                from tcpxcheck import tcpx_binding
+                pairstats = {"stun_over_byte_streams": tcpx_binding(pid, tier, seed, wd, rep)}
             for f in pf:
                 st = f.result()
                 for props, what, replay in st.pop("findings"):
